@@ -40,7 +40,8 @@ func (v *Vue) evaluate(ctx VueContext, nodes []*html.Node, depth int) ([]*html.N
 
 			// Check for v-once early - skip if already rendered
 			// (an element that also carries v-for is checked per iteration, once v-for is expanded)
-			if helpers.HasAttr(node, "v-once") && !helpers.HasAttr(node, "v-for") {
+			// (a member of a v-if chain is checked when - and if - its branch is taken)
+			if helpers.HasAttr(node, "v-once") && !helpers.HasAttr(node, "v-for") && !isChainMember(node) {
 				vSeenID := helpers.GetAttr(node, "v-once-id")
 				if ctx.seen[vSeenID] {
 					// This v-once element has already been rendered, skip it
@@ -188,4 +189,9 @@ func (v *Vue) evaluate(ctx VueContext, nodes []*html.Node, depth int) ([]*html.N
 	}
 
 	return result, nil
+}
+
+// isChainMember reports whether the element belongs to a v-if / v-else-if / v-else chain.
+func isChainMember(node *html.Node) bool {
+	return helpers.HasAttr(node, "v-if") || helpers.HasAttr(node, "v-else-if") || helpers.HasAttr(node, "v-else")
 }
